@@ -183,6 +183,7 @@ func cmdCheck(args []string) int {
 		eng.initIntrinsics()
 		eng.initIntrinsics2()
 		eng.initThreadIntrinsics()
+		eng.initReflectIntrinsics()
 		if err := eng.load(); err != nil {
 			fmt.Fprintf(os.Stderr, "ERROR: load: %v\n", err)
 			return 2
@@ -632,6 +633,7 @@ func cmdReplay(args []string) int {
 	eng.initIntrinsics()
 	eng.initIntrinsics2()
 	eng.initThreadIntrinsics()
+	eng.initReflectIntrinsics()
 	if err := eng.load(); err != nil {
 		fmt.Fprintln(os.Stderr, err)
 		return 2
